@@ -11,7 +11,7 @@ open Manticore
 open Manticore.Gen
 open Manticore.Consts (byteAt window)
 
-/-- `UUID.Marshal`: the nibble masks and shifts -/
+-- `UUID.Marshal`: the nibble masks and shifts
 theorem consts_match_model_marshal (u : UUID) :
     marshal u =
     (
@@ -26,7 +26,7 @@ theorem consts_match_model_marshal (u : UUID) :
        ((u.variant &&& UInt8.ofNat ConstsC13.m_b2_maskA) <<< UInt8.ofNat ConstsC13.m_b2_shift) ||| (data7low &&& UInt8.ofNat ConstsC13.m_b2_maskB),
        d.d8, d.d9, d.d10, d.d11, d.d12, d.d13, d.d14]) := by exact rfl
 
-/-- `UUID.Marshal`: size, the two copied ranges, which data bytes are split into nibbles and which output bytes take them -/
+-- `UUID.Marshal`: size, the two copied ranges, which data bytes are split into nibbles and which output bytes take them
 theorem consts_match_model_marshal_layout (u : UUID) :
     (marshal u).length = ConstsC13.m_size
       ∧ window (marshal u) ConstsC13.m_copy0_dstLo ConstsC13.m_copy0_dstHi
@@ -50,8 +50,8 @@ theorem consts_match_model_marshal_shape :
       = ["(| (<< (& (index marshalledData 6) 15) 4) (>> (& (index marshalledData 7) 240) 4))",
          "(| (<< (& (index marshalledData 7) 15) 4) (& (index marshalledData 8) 15))"] := ⟨rfl, rfl⟩
 
-/-- `UUID.Unmarshal` on 16 bytes or more: minimum length, where version and variant sit, the copied ranges, the two
-    re-assembled data bytes with their masks and shifts -/
+-- `UUID.Unmarshal` on 16 bytes or more: minimum length, where version and variant sit, the copied ranges, the two
+-- re-assembled data bytes with their masks and shifts
 theorem consts_match_model_unmarshal (m0 m1 m2 m3 m4 m5 m6 m7 m8 m9 m10 m11 m12 m13 m14 m15 : UInt8) (rest : Bytes) :
     let m := m0 :: m1 :: m2 :: m3 :: m4 :: m5 :: m6 :: m7 :: m8 :: m9 :: m10 :: m11 :: m12 :: m13 :: m14 :: m15 :: rest
     unmarshal m =
@@ -70,7 +70,7 @@ theorem consts_match_model_unmarshal (m0 m1 m2 m3 m4 m5 m6 m7 m8 m9 m10 m11 m12 
                 data := d }
         | none => .panic := by exact rfl
 
-/-- the destinations of `UUID.Unmarshal` tile `Data[0:15]` in order, and 16 bytes are reported consumed -/
+-- the destinations of `UUID.Unmarshal` tile `Data[0:15]` in order, and 16 bytes are reported consumed
 theorem consts_match_model_unmarshal_layout :
     [ConstsC13.u_copy0_dstLo, ConstsC13.u_copy0_dstHi, ConstsC13.u_d6_idx, ConstsC13.u_d7_idx, ConstsC13.u_copy1_dstLo,
      ConstsC13.u_copy1_dstBase + ConstsC13.u_copy1_dstLen] = [0, 6, 6, 7, 8, 15] ∧ ConstsC13.u_consumed = ConstsC13.u_minLen := by decide
@@ -78,7 +78,7 @@ theorem consts_match_model_unmarshal_layout :
 theorem consts_match_model_unmarshal_short (m : Bytes) (h : m.length < ConstsC13.u_minLen) : unmarshal m = .err := by
   unfold unmarshal; exact if_pos h
 
-/-- `UUIDv1.Marshal`: field masks and shifts -/
+-- `UUIDv1.Marshal`: field masks and shifts
 theorem consts_match_model_v1Data (v : V1) :
     v1Data v =
     (
@@ -92,21 +92,21 @@ theorem consts_match_model_v1Data (v : V1) :
         d8 := (v.clockSeq &&& UInt16.ofNat ConstsC13.v1_b8_mask).toUInt8
         d9 := v.n0, d10 := v.n1, d11 := v.n2, d12 := v.n3, d13 := v.n4, d14 := v.n5 }) := by exact rfl
 
-/-- `UUIDv1.Marshal`: the version written -/
+-- `UUIDv1.Marshal`: the version written
 theorem consts_match_model_v1Marshal (v : V1) :
     v1Marshal v =
     (
     marshal { version := UInt8.ofNat ConstsC13.v1_version, variant := v.variant, data := v1Data v }) := by exact rfl
 
-/-- `UUIDv1.Marshal`: big-endian 32- and 16-bit stores at [0:4] and [4:6], bytes 6, 7, 8, node at [9:15] — the positions of
-    the model's `d0`…`d14` -/
+-- `UUIDv1.Marshal`: big-endian 32- and 16-bit stores at [0:4] and [4:6], bytes 6, 7, 8, node at [9:15] — the positions of
+-- the model's `d0`…`d14`
 theorem consts_match_model_v1Data_layout :
     [ConstsC13.v1_put32_dst_lo, ConstsC13.v1_put32_dst_hi, ConstsC13.v1_put16_dst_lo, ConstsC13.v1_put16_dst_hi, ConstsC13.v1_b6_idx,
      ConstsC13.v1_b7_idx, ConstsC13.v1_b8_idx, ConstsC13.v1_node_dst_lo, ConstsC13.v1_node_dst_hi] = [0, 4, 4, 6, 6, 7, 8, 9, 15]
       ∧ ConstsC13.v1_put_what = ["timeLow", "timeMid"]
       ∧ ConstsC13.v1_b7_shape = "(| (<< (byte (& timeHigh 15)) 4) (byte (>> (& u.ClockSeq 3840) 8)))" ∧ ConstsC13.v1_b8_shape = "(byte (& u.ClockSeq 255))" := ⟨by decide, rfl, rfl, rfl⟩
 
-/-- `UUIDv1.Unmarshal`: field masks and shifts -/
+-- `UUIDv1.Unmarshal`: field masks and shifts
 theorem consts_match_model_v1OfUUID (u : UUID) :
     v1OfUUID u =
     (
@@ -119,7 +119,7 @@ theorem consts_match_model_v1OfUUID (u : UUID) :
         time := (timeHigh.toUInt64 <<< UInt64.ofNat ConstsC13.v1_u_time_shiftHigh) ||| (timeMid.toUInt64 <<< UInt64.ofNat ConstsC13.v1_u_time_shiftMid) ||| timeLow.toUInt64
         n0 := d.d9, n1 := d.d10, n2 := d.d11, n3 := d.d12, n4 := d.d13, n5 := d.d14 }) := by exact rfl
 
-/-- `UUIDv1.Unmarshal`: which data bytes feed which field (the model's `d0`…`d14`), big-endian reads of 32 and 16 bits -/
+-- `UUIDv1.Unmarshal`: which data bytes feed which field (the model's `d0`…`d14`), big-endian reads of 32 and 16 bits
 theorem consts_match_model_v1OfUUID_layout :
     [ConstsC13.v1_u_first_lo, ConstsC13.v1_u_first_hi, ConstsC13.v1_u_timeMid_lo, ConstsC13.v1_u_timeMid_hi, ConstsC13.v1_u_timeHigh_idxA,
      ConstsC13.v1_u_timeHigh_idxB, ConstsC13.v1_u_clockSeq_idxA, ConstsC13.v1_u_clockSeq_idxB, ConstsC13.v1_u_node_src_lo,
@@ -129,7 +129,7 @@ theorem consts_match_model_v1OfUUID_layout :
       ∧ ConstsC13.v1_u_timeHigh_shape = "(| (<< (uint16 (index u.UUID.Data 6)) 4) (& (uint16 (>> (index u.UUID.Data 7) 4)) 15))"
       ∧ ConstsC13.v1_u_time_shape = "(| (| (<< (uint64 timeHigh) 48) (<< (uint64 timeMid) 32)) (uint64 timeLow))" := ⟨by decide, rfl, rfl, rfl, rfl, rfl, rfl⟩
 
-/-- `UUIDv1.Unmarshal`: minimum length and the accepted version -/
+-- `UUIDv1.Unmarshal`: minimum length and the accepted version
 theorem consts_match_model_v1Unmarshal (m : Bytes) :
     v1Unmarshal m =
     (
@@ -139,7 +139,7 @@ theorem consts_match_model_v1Unmarshal (m : Bytes) :
         | .err => .err
         | .panic => .panic) := by exact rfl
 
-/-- `UUIDv2.Marshal`: field masks and shifts -/
+-- `UUIDv2.Marshal`: field masks and shifts
 theorem consts_match_model_v2Data (v : V2) :
     v2Data v =
     (
@@ -153,21 +153,21 @@ theorem consts_match_model_v2Data (v : V2) :
         d8 := v.localDomain
         d9 := v.n0, d10 := v.n1, d11 := v.n2, d12 := v.n3, d13 := v.n4, d14 := v.n5 }) := by exact rfl
 
-/-- `UUIDv2.Marshal`: the version written -/
+-- `UUIDv2.Marshal`: the version written
 theorem consts_match_model_v2Marshal (v : V2) :
     v2Marshal v =
     (
     marshal { version := UInt8.ofNat ConstsC13.v2_version, variant := v.variant, data := v2Data v }) := by exact rfl
 
-/-- `UUIDv2.Marshal`: big-endian 32- and 16-bit stores at [0:4] and [4:6], bytes 6, 7, 8, node at [9:15] — the positions of
-    the model's `d0`…`d14` -/
+-- `UUIDv2.Marshal`: big-endian 32- and 16-bit stores at [0:4] and [4:6], bytes 6, 7, 8, node at [9:15] — the positions of
+-- the model's `d0`…`d14`
 theorem consts_match_model_v2Data_layout :
     [ConstsC13.v2_put32_dst_lo, ConstsC13.v2_put32_dst_hi, ConstsC13.v2_put16_dst_lo, ConstsC13.v2_put16_dst_hi, ConstsC13.v2_b6_idx,
      ConstsC13.v2_b7_idx, ConstsC13.v2_b8_idx, ConstsC13.v2_node_dst_lo, ConstsC13.v2_node_dst_hi] = [0, 4, 4, 6, 6, 7, 8, 9, 15]
       ∧ ConstsC13.v2_put_what = ["u.LocalDomainNumber", "timeMid"]
       ∧ ConstsC13.v2_b7_shape = "(| (<< (byte (& timeHigh 15)) 4) (byte (& u.Clock 15)))" ∧ ConstsC13.v2_b8_shape = "u.LocalDomain" := ⟨by decide, rfl, rfl, rfl⟩
 
-/-- `UUIDv2.Unmarshal`: field masks and shifts -/
+-- `UUIDv2.Unmarshal`: field masks and shifts
 theorem consts_match_model_v2OfUUID (u : UUID) :
     v2OfUUID u =
     (
@@ -181,7 +181,7 @@ theorem consts_match_model_v2OfUUID (u : UUID) :
         time := (timeHigh.toUInt64 <<< UInt64.ofNat ConstsC13.v2_u_time_shiftHigh) ||| (timeMid.toUInt64 <<< UInt64.ofNat ConstsC13.v2_u_time_shiftMid)
         n0 := d.d9, n1 := d.d10, n2 := d.d11, n3 := d.d12, n4 := d.d13, n5 := d.d14 }) := by exact rfl
 
-/-- `UUIDv2.Unmarshal`: which data bytes feed which field (the model's `d0`…`d14`), big-endian reads of 32 and 16 bits -/
+-- `UUIDv2.Unmarshal`: which data bytes feed which field (the model's `d0`…`d14`), big-endian reads of 32 and 16 bits
 theorem consts_match_model_v2OfUUID_layout :
     [ConstsC13.v2_u_first_lo, ConstsC13.v2_u_first_hi, ConstsC13.v2_u_timeMid_lo, ConstsC13.v2_u_timeMid_hi, ConstsC13.v2_u_timeHigh_idxA,
      ConstsC13.v2_u_timeHigh_idxB, ConstsC13.v2_u_clock_idx, ConstsC13.v2_u_localDomain_idx, ConstsC13.v2_u_node_src_lo,
@@ -191,7 +191,7 @@ theorem consts_match_model_v2OfUUID_layout :
       ∧ ConstsC13.v2_u_timeHigh_shape = "(| (<< (uint16 (index u.UUID.Data 6)) 4) (& (uint16 (>> (index u.UUID.Data 7) 4)) 15))"
       ∧ ConstsC13.v2_u_time_shape = "(| (<< (uint64 timeHigh) 48) (<< (uint64 timeMid) 32))" := ⟨by decide, rfl, rfl, rfl, rfl, rfl, rfl⟩
 
-/-- `UUIDv2.Unmarshal`: minimum length and the accepted version -/
+-- `UUIDv2.Unmarshal`: minimum length and the accepted version
 theorem consts_match_model_v2Unmarshal (m : Bytes) :
     v2Unmarshal m =
     (
@@ -201,7 +201,7 @@ theorem consts_match_model_v2Unmarshal (m : Bytes) :
         | .err => .err
         | .panic => .panic) := by exact rfl
 
-/-- `GUID.FromRawBytes` on 16 bytes or more: which byte goes where with which shift (A, B, C little-endian; D, E big-endian) -/
+-- `GUID.FromRawBytes` on 16 bytes or more: which byte goes where with which shift (A, B, C little-endian; D, E big-endian)
 theorem consts_match_model_fromRawBytes (b0 b1 b2 b3 b4 b5 b6 b7 b8 b9 b10 b11 b12 b13 b14 b15 : UInt8) (rest : Bytes) :
     let data := b0 :: b1 :: b2 :: b3 :: b4 :: b5 :: b6 :: b7 :: b8 :: b9 :: b10 :: b11 :: b12 :: b13 :: b14 :: b15 :: rest
     fromRawBytes data =
@@ -218,7 +218,7 @@ theorem consts_match_model_fromRawBytes (b0 b1 b2 b3 b4 b5 b6 b7 b8 b9 b10 b11 b
                    ||| ((byteAt data ConstsC13.g_E4_idx).toUInt64 <<< UInt64.ofNat ConstsC13.g_E4_shift)
                    ||| (byteAt data ConstsC13.g_E5_idx).toUInt64 } := by exact rfl
 
-/-- below the guard's minimum length the receiver becomes the nil GUID -/
+-- below the guard's minimum length the receiver becomes the nil GUID
 theorem consts_match_model_fromRawBytes_short (data : Bytes) (h : data.length < ConstsC13.g_minLen) :
     fromRawBytes data = .ok ⟨0, 0, 0, 0, 0⟩ := by
   match data, h with
@@ -250,7 +250,7 @@ theorem consts_match_model_guid_shape :
            "(append data (byte guid.B) (byte (>> guid.B 8)))", "(append data (byte guid.C) (byte (>> guid.C 8)))",
            "(append data (byte (>> guid.D 8)) (byte guid.D))", "(byte (& (>> guid.E (uint64 (* i 8))) 255))"] := ⟨rfl, rfl, rfl⟩
 
-/-- `GUID.ToBytes`: the shifts of A, B, C, D and the loop `eBytes[5-i] = byte((E >> (i*8)) & 0xff)` unrolled -/
+-- `GUID.ToBytes`: the shifts of A, B, C, D and the loop `eBytes[5-i] = byte((E >> (i*8)) & 0xff)` unrolled
 theorem consts_match_model_toBytes (g : GUID) :
     toBytes g =
     (
